@@ -45,8 +45,8 @@ Proof. exact tonl_testonly_body_exempt. Qed.
 (* (4) identifiers that merely share a name with a @testonly item are never reported: a bare callee must
    resolve to a package-level function object that is annotated in its own package *)
 (* which nodes are candidates, exactly: a call whose callee identifier RESOLVES to an annotated package-level function
-   (TONL02), a call pkg.F of an annotated function (TONL02), a method call on a value whose defined type - through
-   aliases and one pointer - has that annotated method (TONL03), a composite literal / typed var spec / field,
+   (TONL02), a call pkg.F of an annotated function (TONL02), a method call x.M() where the receiver type of the SELECTED method -
+   also one promoted through an embedded field; through aliases and one pointer - has that annotated method (TONL03), a composite literal / typed var spec / field,
    parameter or result of an annotated type (TONL01, keyed by package and type for the once-per-file rule) *)
 Theorem C03_candidate_nodes :
   forall fs n c, In c (tonl_cands fs n) <-> tonl_candidate fs n c.
